@@ -579,7 +579,6 @@ def emit_utils(repo: Path, out: Path):  # noqa: C901, PLR0912, PLR0915
         sig = "(x : LogRepF F)" + {None: "", "plain": " (v : F)", "scalar": " (o : Scalar F)"}[okind]
         emit(lname, sig, LEAN_TYPE[rt], stubs[rt], build)
 
-    # `return self` for a method returning a LogRepFloat: handled through env of `self`
     # ---- transitions.py: MultinomialDynamicIntegrationTransition._weight_ratio -----------
     def build_wr():
         ttree = ast.parse((repo / "src/mici/transitions.py").read_text())
@@ -689,8 +688,7 @@ class StagersTr:
                 return f"{paren(a)} * {paren(b)}", t
             # left-associative chains stay flat, a right operand that is a sum is parenthesised
             bb = paren(b) if isinstance(n.right, ast.BinOp) else b
-            aa = paren(a) if isinstance(n.left, ast.BinOp) and isinstance(n.left.op, ast.Mult) is False and False else a
-            return f"{aa} {sym} {bb}", t
+            return f"{a} {sym} {bb}", t
         if isinstance(n, ast.Compare):
             if len(n.ops) != 1 or type(n.ops[0]) not in CMP_SYM:
                 raise U("unsupported comparison", n)
@@ -911,10 +909,6 @@ class StagersTr:
                     k == "append" and n.args and a is n.args[0] for k, a in body):
                 raise U("append inside a nested block", n)
         lst = appended[0]
-        order = []
-        for name in read + stored:
-            if name not in order:
-                order.append(name)
         # reading order of first occurrence: walk again in source order
         src_order = []
         for n in ast.walk(ast.Module(body=[ast.Expr(value=s.test), *s.body], type_ignores=[])):
@@ -961,9 +955,6 @@ class StagersTr:
         sub = StagersTr(False)
         sub_inner = dict(inner)
 
-        class _SelfView(StagersTr):
-            pass
-
         # translate the body with `self.attr` mapped to the parameter of the same name
         def ex_inner(n, e, want=None, _orig=sub.ex):
             if isinstance(n, ast.Attribute) and isinstance(n.value, ast.Name) and n.value.id == "self":
@@ -988,8 +979,6 @@ class StagersTr:
         cond = sub.cond(s.test, sub_inner)
         self.fresh += 1
         fname = f"while_loop_{self.fresh}"
-        pats = " ".join("_" for _ in carried)
-        args = " ".join(carried)
         nxt = " ".join(paren(cur[v][0]) for v in carried)
         pnames = " ".join(p.split(" ")[0][1:] for p in params)
         d = [
@@ -1000,13 +989,12 @@ class StagersTr:
         ]
         d += [f"      {l}" for l in lets]
         d += [f"      {elem} :: {fname} {pnames} fuel {nxt}", "    else []"]
-        del pats, args
         self.aux.append("\n".join(d))
         out = dict(env)
         for v in carried:
             out[v] = None  # values after the loop are not tracked
         init = " ".join(paren(env[v][0]) for v in carried)
-        out[lst] = (f"({fname} {' '.join(call_args)} ({inner[bound][0] if False else paren(env[bound][0])} + 1) {init})", "ListNat")
+        out[lst] = (f"({fname} {' '.join(call_args)} ({paren(env[bound][0])} + 1) {init})", "ListNat")
         return out
 
 
